@@ -27,6 +27,7 @@ type PStep struct {
 	Kind  string  `json:"kind"`            // call | repeat | burst
 	Call  int     `json:"call,omitempty"`  // index into Calls (call, repeat)
 	Burst [][]int `json:"burst,omitempty"` // per goroutine: indexes of earlier calls
+	Rounds int    `json:"rounds,omitempty"` // each goroutine repeats its batch this many times (default 1)
 }
 
 type History struct {
@@ -56,10 +57,15 @@ func (lc *liveCall) list() []string {
 	return lc.backing[:lc.n]
 }
 
-// exec runs the call against the real library (no recover: a panic is C03's business, and here it
-// would be a harness error) and renders the result canonically. Returned slices are scribbled
+// exec runs the call against the real library and renders the result canonically (a panic becomes
+// a result of its own: it is C03's business, but here it must not take the history down). Returned slices are scribbled
 // over afterwards: a library that hands out shared storage would see its next answer corrupted.
-func (lc *liveCall) exec() string {
+func (lc *liveCall) exec() (res string) {
+	defer func() {
+		if p := recover(); p != nil {
+			res = fmt.Sprintf("PANIC: %v", p) // reported as a result that differs from every normal one
+		}
+	}()
 	switch lc.fn {
 	case "satisfies":
 		ok, err := spdxexp.Satisfies(lc.expr, lc.list())
@@ -165,10 +171,17 @@ func checkC13(h History) Outcome {
 		if !lc.seen {
 			lc.seen, lc.first = true, got
 			mu.Unlock()
+			if strings.HasPrefix(got, "PANIC: ") {
+				report(fail("C13/panic/"+h.Calls[i].describe(), "%s panicked %s: %s", h.Calls[i].describe(), ctx, got))
+			}
 			return
 		}
 		first := lc.first
 		mu.Unlock()
+		if strings.HasPrefix(got, "PANIC: ") {
+			report(fail("C13/panic/"+h.Calls[i].describe(), "%s panicked %s: %s", h.Calls[i].describe(), ctx, got))
+			return
+		}
 		if got != first {
 			report(fail("C13/result/"+h.Calls[i].describe(), "%s returned %s the first time and %s %s", h.Calls[i].describe(), first, got, ctx))
 		}
@@ -185,8 +198,20 @@ func checkC13(h History) Outcome {
 				wg.Add(1)
 				go func(g int, batch []int) {
 					defer wg.Done()
-					for _, ci := range batch {
-						run(ci, fmt.Sprintf("inside a burst of %d goroutines at step %d", len(st.Burst), si))
+					rounds := st.Rounds
+					if rounds < 1 {
+						rounds = 1
+					}
+					for r := 0; r < rounds; r++ {
+						for _, ci := range batch {
+							run(ci, fmt.Sprintf("inside a burst of %d goroutines at step %d (round %d)", len(st.Burst), si, r))
+						}
+						mu.Lock()
+						stop := problem != nil
+						mu.Unlock()
+						if stop {
+							return
+						}
 					}
 				}(g, batch)
 			}
@@ -365,6 +390,55 @@ func TestC13_ColdStart(t *testing.T) {
 		out := checkC13(h)
 		raw, _ := json.Marshal(h)
 		rec.Case(true, string(raw), fmt.Sprintf("cold burst of %d goroutines over %d calls, then %d sequential repeats", g, len(h.Calls), len(h.Steps)-1), "cold-burst")
+		rec.Tally("goroutines", int64(g))
+		if !out.OK {
+			rec.Fail(rt, "c13-history", out.Key, out.Msg, h)
+		}
+	})
+	os.Remove("journal.json")
+}
+
+// TestC13_Hammer: many goroutines, each working on its own compound expression for many rounds,
+// compared with the sequential answers: wrong results that need a narrow interleaving (and that
+// the race detector cannot see when the shared state is properly locked but wrongly used).
+func TestC13_Hammer(t *testing.T) {
+	cfg := Cfg()
+	rounds := cfg.Pick(150, 600)
+	rec := NewRecorder("C13", "hammer", fmt.Sprintf("4-16 goroutines, each owning a different rapid-generated compound expression and allowed list, alternate ExtractLicenses / Satisfies / ValidateLicenses on it for %d rounds after the sequential answers were recorded; built with -race; same oracle as the histories check; non-trivial = every history; distinct by history", rounds))
+	defer rec.Finish(t)
+	tb := Tbl()
+	rec.Rapid(t, func(rt *rapid.T) {
+		g := rapid.IntRange(4, 16).Draw(rt, "goroutines")
+		var h History
+		st := PStep{Kind: "burst", Rounds: rounds}
+		for i := 0; i < g; i++ {
+			excPool := tb.DrawExcPool(rt)
+			pool := tb.DrawPool(rt, excPool)
+			tree := DrawTree(rt, len(pool), 3, 6)
+			if tree.IsLeaf() {
+				tree = &Node{Op: rapid.SampledFrom([]string{"AND", "OR"}).Draw(rt, fmt.Sprintf("op%d", i)), Kids: []*Node{leafNode(0), leafNode(len(pool) - 1)}}
+			}
+			expr := mkStr(tree.Render(Texts(pool), DrawSpacer(rt)))
+			var list []StrCase
+			for _, a := range tb.DrawAllowed(rt, pool, excPool, 4) {
+				list = append(list, mkStr(a.Text))
+			}
+			base := len(h.Calls)
+			h.Calls = append(h.Calls, PCall{Fn: "extract", Expr: expr}, PCall{Fn: "satisfies", Expr: expr, List: list}, PCall{Fn: "validate", List: append([]StrCase{expr}, list...)})
+			for k := 0; k < 3; k++ {
+				h.Steps = append(h.Steps, PStep{Kind: "call", Call: base + k})
+			}
+			st.Burst = append(st.Burst, []int{base, base + 1, base, base + 2, base + 1})
+		}
+		h.Steps = append(h.Steps, st)
+		if cfg.Out != "" {
+			raw, _ := json.Marshal(h)
+			j, _ := json.Marshal(Violation{Check: "c13-history", Key: "C13/crash/" + fmt.Sprintf("%x", hash64(string(raw))), Msg: "the process died while executing this history", Case: raw})
+			os.WriteFile("journal.json", j, 0o644)
+		}
+		out := checkC13(h)
+		raw, _ := json.Marshal(h)
+		rec.Case(true, string(raw), fmt.Sprintf("%d goroutines x %d rounds, first expression %s", g, rounds, h.Calls[0].Expr.S()), "hammer")
 		rec.Tally("goroutines", int64(g))
 		if !out.OK {
 			rec.Fail(rt, "c13-history", out.Key, out.Msg, h)
